@@ -65,90 +65,170 @@ mod proofs {
         }
     }
 
-    macro_rules! do_match_harness {
-        ($name:ident, $t:ty) => {
-            #[kani::proof]
-            #[kani::unwind(3)]
-            fn $name() {
-                let r: Range<$t> = any_range();
-                let c: $t = kani::any();
-                kani::assume(c.usable());
-                let got = r.verif_do_match(c);
-                let want = reference(&r, c);
-                assert!(got == want, "do_match disagrees with RangeBounds::contains");
-                kani::cover!(got, "a matching case is reachable");
-                kani::cover!(!got, "a non matching case is reachable");
-                core::mem::forget(r);
-            }
-        };
+    fn check_do_match<T: Num>() {
+        let r: Range<T> = any_range();
+        let c: T = kani::any();
+        kani::assume(c.usable());
+        let got = r.verif_do_match(c);
+        let want = reference(&r, c);
+        assert!(got == want, "do_match disagrees with RangeBounds::contains");
+        kani::cover!(got, "a matching case is reachable");
+        kani::cover!(!got, "a non matching case is reachable");
+        core::mem::forget(r);
     }
-    do_match_harness!(do_match_i8, i8);
-    do_match_harness!(do_match_i16, i16);
-    do_match_harness!(do_match_i32, i32);
-    do_match_harness!(do_match_i64, i64);
-    do_match_harness!(do_match_u8, u8);
-    do_match_harness!(do_match_u16, u16);
-    do_match_harness!(do_match_u32, u32);
-    do_match_harness!(do_match_u64, u64);
-    do_match_harness!(do_match_f32, f32);
-    do_match_harness!(do_match_f64, f64);
+    #[kani::proof]
+    #[kani::unwind(3)]
+    fn do_match_i8() {
+        check_do_match::<i8>();
+    }
+    #[kani::proof]
+    #[kani::unwind(3)]
+    fn do_match_i16() {
+        check_do_match::<i16>();
+    }
+    #[kani::proof]
+    #[kani::unwind(3)]
+    fn do_match_i32() {
+        check_do_match::<i32>();
+    }
+    #[kani::proof]
+    #[kani::unwind(3)]
+    fn do_match_i64() {
+        check_do_match::<i64>();
+    }
+    #[kani::proof]
+    #[kani::unwind(3)]
+    fn do_match_u8() {
+        check_do_match::<u8>();
+    }
+    #[kani::proof]
+    #[kani::unwind(3)]
+    fn do_match_u16() {
+        check_do_match::<u16>();
+    }
+    #[kani::proof]
+    #[kani::unwind(3)]
+    fn do_match_u32() {
+        check_do_match::<u32>();
+    }
+    #[kani::proof]
+    #[kani::unwind(3)]
+    fn do_match_u64() {
+        check_do_match::<u64>();
+    }
+    #[kani::proof]
+    #[kani::unwind(3)]
+    fn do_match_f32() {
+        check_do_match::<f32>();
+    }
+    #[kani::proof]
+    #[kani::unwind(3)]
+    fn do_match_f64() {
+        check_do_match::<f64>();
+    }
 
     // `a..b` on integers is stored as `a..=b-1`; b == MIN has no such form
-    macro_rules! end_bound_harness {
-        ($name:ident, $t:ty) => {
-            #[kani::proof]
-            fn $name() {
-                let b: $t = kani::any();
-                let c: $t = kani::any();
-                match b.range_end_bound() {
-                    None => assert!(b == <$t>::MIN),
-                    Some(Bound::Included(e)) => {
-                        assert!(b != <$t>::MIN);
-                        // same set of counts as the exclusive bound
-                        assert!((c <= e) == (c < b));
-                    }
-                    Some(_) => panic!("integer exclusive end must become an inclusive end"),
-                }
-                kani::cover!(b == <$t>::MIN);
-            }
-        };
+    trait Int: Num + Ord {
+        const MINV: Self;
+        const MAXV: Self;
+        fn wide(self) -> i128;
     }
-    end_bound_harness!(end_bound_i8, i8);
-    end_bound_harness!(end_bound_i16, i16);
-    end_bound_harness!(end_bound_i32, i32);
-    end_bound_harness!(end_bound_i64, i64);
-    end_bound_harness!(end_bound_u8, u8);
-    end_bound_harness!(end_bound_u16, u16);
-    end_bound_harness!(end_bound_u32, u32);
-    end_bound_harness!(end_bound_u64, u64);
+    macro_rules! int_impl { ($($t:ty),*) => { $( impl Int for $t { const MINV: Self = <$t>::MIN; const MAXV: Self = <$t>::MAX; fn wide(self) -> i128 { self as i128 } } )* } }
+    int_impl!(i8, i16, i32, i64, u8, u16, u32, u64);
+
+    fn check_end_bound<T: Int>() {
+        let b: T = kani::any();
+        let c: T = kani::any();
+        match b.range_end_bound() {
+            None => assert!(b == T::MINV, "only an exclusive end at the type minimum has no inclusive form"),
+            Some(Bound::Included(e)) => {
+                assert!(b != T::MINV, "`..MIN` is empty: it has no inclusive form");
+                // same set of counts as the exclusive bound
+                assert!((c <= e) == (c < b), "a..b and a..=b-1 must contain the same counts");
+            }
+            Some(_) => panic!("integer exclusive end must become an inclusive end"),
+        }
+        kani::cover!(b == T::MINV);
+    }
+    #[kani::proof]
+    fn end_bound_i8() {
+        check_end_bound::<i8>();
+    }
+    #[kani::proof]
+    fn end_bound_i16() {
+        check_end_bound::<i16>();
+    }
+    #[kani::proof]
+    fn end_bound_i32() {
+        check_end_bound::<i32>();
+    }
+    #[kani::proof]
+    fn end_bound_i64() {
+        check_end_bound::<i64>();
+    }
+    #[kani::proof]
+    fn end_bound_u8() {
+        check_end_bound::<u8>();
+    }
+    #[kani::proof]
+    fn end_bound_u16() {
+        check_end_bound::<u16>();
+    }
+    #[kani::proof]
+    fn end_bound_u32() {
+        check_end_bound::<u32>();
+    }
+    #[kani::proof]
+    fn end_bound_u64() {
+        check_end_bound::<u64>();
+    }
 
     // numeric counts written in the file: lossless conversion or rejection
-    macro_rules! from_harness {
-        ($name:ident, $t:ty) => {
-            #[kani::proof]
-            fn $name() {
-                let u: u64 = kani::any();
-                let i: i64 = kani::any();
-                match <$t as RangeNumber>::from_u64(u) {
-                    Some(v) => assert!(v as i128 == u as i128),
-                    None => assert!((u as i128) > (<$t>::MAX as i128)),
-                }
-                match <$t as RangeNumber>::from_i64(i) {
-                    Some(v) => assert!(v as i128 == i as i128),
-                    None => assert!((i as i128) > (<$t>::MAX as i128) || (i as i128) < (<$t>::MIN as i128)),
-                }
-                assert!(<$t as RangeNumber>::from_f64(1.0).is_none());
-            }
-        };
+    fn check_from<T: Int>() {
+        let u: u64 = kani::any();
+        let i: i64 = kani::any();
+        match <T as RangeNumber>::from_u64(u) {
+            Some(v) => assert!(v.wide() == u as i128),
+            None => assert!((u as i128) > T::MAXV.wide()),
+        }
+        match <T as RangeNumber>::from_i64(i) {
+            Some(v) => assert!(v.wide() == i as i128),
+            None => assert!((i as i128) > T::MAXV.wide() || (i as i128) < T::MINV.wide()),
+        }
+        assert!(<T as RangeNumber>::from_f64(1.0).is_none());
     }
-    from_harness!(from_i8, i8);
-    from_harness!(from_i16, i16);
-    from_harness!(from_i32, i32);
-    from_harness!(from_i64, i64);
-    from_harness!(from_u8, u8);
-    from_harness!(from_u16, u16);
-    from_harness!(from_u32, u32);
-    from_harness!(from_u64, u64);
+    #[kani::proof]
+    fn from_i8() {
+        check_from::<i8>();
+    }
+    #[kani::proof]
+    fn from_i16() {
+        check_from::<i16>();
+    }
+    #[kani::proof]
+    fn from_i32() {
+        check_from::<i32>();
+    }
+    #[kani::proof]
+    fn from_i64() {
+        check_from::<i64>();
+    }
+    #[kani::proof]
+    fn from_u8() {
+        check_from::<u8>();
+    }
+    #[kani::proof]
+    fn from_u16() {
+        check_from::<u16>();
+    }
+    #[kani::proof]
+    fn from_u32() {
+        check_from::<u32>();
+    }
+    #[kani::proof]
+    fn from_u64() {
+        check_from::<u64>();
+    }
 
     // vacuity witness: a harness whose assertion must fail
     #[kani::proof]
